@@ -834,10 +834,11 @@ func (t *State) doTxInternal(tx *pb.Transaction, batch kvdb.Batch, cacheFiller *
 		t.log.Warn("autogen tx moves tokens or has no read/write set", "txid", utils.F(tx.Txid))
 		return ErrInvalidAutogenTx
 	}
-	if tx.GetModifyBlock() == nil || (tx.GetModifyBlock() != nil && !tx.ModifyBlock.Marked) {
-		if err := t.utxo.CheckInputEqualOutput(tx); err != nil {
-			return err
-		}
+	// the "marked" flag is metadata that neither the txid nor any signature covers (and a mark whose regulator
+	// signature verifyMarkedTx has checked is cleared by that check): it must not exempt a transaction from
+	// the input / output check, marking blanks only desc and the write set
+	if err := t.utxo.CheckInputEqualOutput(tx); err != nil {
+		return err
 	}
 
 	err := t.xmodel.DoTx(tx, batch)
